@@ -1155,6 +1155,9 @@ def add_sortable(writer, fieldname, facet, column=None):
             colwriter = column.writer(colfile)
             for docnum in reader.all_doc_ids():
                 v = catter.key_to_name(catter.key_for(None, docnum))
+                if v is None:
+                    # (a document without a value gets the column's default)
+                    continue
                 cv = field.to_column_value(v)
                 colwriter.add(docnum, cv)
             colwriter.finish(reader.doc_count_all())
